@@ -150,6 +150,8 @@ func Workload(st *Store) []Step {
 		{Kind: "compact", Label: "compactentriesto(A,4)", Rep: RA, Index: 4},
 		{Kind: "save", Label: "save#5(B snapshot@10 in update)", Worker: 2, Updates: []pb.Update{
 			ud(RB, pb.State{Term: 3, Vote: 0, Commit: 10}, nil, snap(RB, 10, 3))}},
+		{Kind: "save", Label: "save#5b(C snapshot@9 in update, term and vote unchanged)", Worker: 3, Updates: []pb.Update{
+			ud(RC, pb.State{Term: 3, Vote: 2, Commit: 9}, nil, snap(RC, 9, 3))}},
 		{Kind: "close", Label: "close#1"},
 		{Kind: "open", Label: "open#2"},
 		{Kind: "save", Label: "save#6(A 7..8 big,B 11..12)", Worker: 2, Updates: []pb.Update{
